@@ -422,6 +422,8 @@ class SeqOf(Kind):
         arr = mk("!arr", z3.ArraySort(z3.IntSort(), self.inner.sort()))
         length = mk("!len", z3.IntSort())
         ctx.assume(length >= 0)
+        if not getattr(ctx, "under_quantifier", False):
+            ctx.assume(length < 2 ** 63)  # CPython: len() of a list / tuple fits Py_ssize_t
         return SymSeq(arr, length, self.inner)
 
     def sort(self):
@@ -789,10 +791,30 @@ PathSort = z3.DeclareSort("Path")
 
 
 class PathV:
-    """A pathlib pure path: opaque term; .parent/.stem/.name/.parts are uninterpreted functions (libmodel.path_attr)."""
+    """A pathlib pure path: opaque term; .parent/.stem/.name/.parts are uninterpreted functions (libmodel.path_attr)
+    unless given explicitly in `attrs` (a specification may fix e.g. the basename as a JoinedStr of components)."""
 
-    def __init__(self, term):
+    def __init__(self, term, attrs=None):
         self.term = term
+        self.attrs = dict(attrs or {})
+
+
+class JoinedStr:
+    """A string given as `sep.join(parts)` where no part contains the one-character separator: `split(sep)` returns the
+    parts (str.join / str.split are mutually inverse there); any other use goes through `term` (the concatenation)."""
+
+    def __init__(self, parts, sep: str):
+        self.parts = list(parts)
+        self.sep = sep
+
+    @property
+    def term(self):
+        items = []
+        for k, p_ in enumerate(self.parts):
+            if k:
+                items.append(z3.StringVal(self.sep))
+            items.append(p_ if isinstance(p_, z3.ExprRef) else z3.StringVal(p_))
+        return z3.Concat(*items) if len(items) > 1 else items[0]
 
     def __repr__(self):
         return "<Path %s>" % self.term
